@@ -10,7 +10,7 @@ RULE = ("shapes enumerated exhaustively within the tier's bound (quick: 1..5 axe
         "lengths 1..5, plus a seeded sample of the remaining shapes with lengths<=5; thorough: all 3905 shapes with 1..5 "
         "axes and lengths 1..5); per shape: iter_indices history (elements+3 calls, len interleaved), every axis 0..d+1 x "
         "every position 0..len (in and out of range) view-iterator history continued 3 calls past exhaustion, iter_axis "
-        "history, get at every in-range index of small shapes plus out-of-range/wrong-length indices, sum along every "
+        "history, get AND get_mut (with a write through it: exactly that position changes) at every in-range index of small shapes plus out-of-range (up to two past the end) / wrong-length indices, sum along every "
         "axis; debug build (thorough: also release). non-trivial = model output contains at least one yielded item")
 
 
@@ -55,6 +55,14 @@ def cases_for_shape(sh, rng, small):
         for _ in range(12):
             idx = [rng.randrange(n + 1) for n in sh]
             cs.append("get %s %s" % (fmt(sh), fmt(idx)))
+    # the mutable path (get_mut / IndexMut) must address exactly what the shared path addresses: same cases, and indices up
+    # to two past the end on each axis (a stride-weighted sum that still falls inside the data must not be accepted)
+    cs += [c.replace("get ", "getmut ", 1) for c in cs if c.startswith("get ")]
+    if a_small(E, small) and d <= 3:
+        for idx in itertools.product(*[range(n + 3) for n in sh]):
+            cs.append("getmut %s %s" % (fmt(sh), fmt(idx)))
+    cs.append("getmut %s %s" % (fmt(sh), fmt(sh[:-1])))
+    cs.append("getmut %s %s" % (fmt(sh), fmt(list(sh) + [0])))
     cs.append("get %s %s" % (fmt(sh), fmt(sh[:-1])))            # too short
     cs.append("get %s %s" % (fmt(sh), fmt(list(sh) + [0])))     # too long
     cs.append("get %s %s" % (fmt(sh), fmt([0] * d)))
